@@ -5,7 +5,7 @@
 From Coq Require Import List ZArith.
 From Coq.Strings Require Import Byte.
 From GI Require Import Lib.Bytes Gen.CacheConsts Cache.CacheEntry Cache.Cache Cache.CacheSeqFacts
-  Cache.CacheFault Cache.CacheFaultFacts Cache.CacheConc Cache.CacheConcFacts.
+  Cache.CacheFault Cache.CacheFaultFacts Cache.CacheConc Cache.CacheConcFacts Cache.CacheReent Cache.CacheReentFacts.
 Import ListNotations.
 
 (* for all clients, all call lists (Puts of PS, lookups), all schedules, all torn views *)
@@ -97,3 +97,13 @@ Theorem C11_get_file_conc : forall H U PS, C11_hyps H U PS -> no_hybrid H U ->
   file_post H PS id l (snd (conc_run H callss fs0 sched)).
 Proof. exact get_file_conc_hyps. Qed.
 Print Assumptions C11_get_file_conc.
+
+(* a Put whose source is an in-memory reader handed over at ANY position (partly consumed, or left at
+   its end by an earlier Put: a reused reader) is, in the interleaved semantics, the Put of the whole
+   data: Put rewinds before each pass (regenerated flags).  Every theorem above therefore covers
+   re-stores from readers that are not at their start. *)
+Theorem C11_put_from_positioned_source : forall (H : bytes -> bytes) id cut s tm,
+  concat (cut (ms_data s)) = ms_data s ->
+  call_prog H (CPutR id (reader_of_memsrc s cut) tm) = call_prog H (CPut id (cut (ms_data s)) tm).
+Proof. exact call_put_positioned. Qed.
+Print Assumptions C11_put_from_positioned_source.
